@@ -30,6 +30,11 @@ type Spec struct {
 	Extra func(tier string, merged *Merged) map[string]any
 	// WorkerEnv is added to the environment of each worker.
 	WorkerEnv []string
+	// MapOrders: run every case under every map-iteration order of the vmap seam (quick: ascending and
+	// descending; thorough: + rotated). The oracle must hold under each.
+	MapOrders bool
+	// MapOrdersQuick overrides the additional orders of the quick tier (default: descending, alternating).
+	MapOrdersQuick []int
 }
 
 type KnownFinding struct {
@@ -398,6 +403,7 @@ func Worker(spec Spec, tier string, shard, n int, out, journal string) int {
 		bud = 10 * time.Minute
 	}
 	c := NewCtx(spec.ID, tier, shard, n, journal, bud)
+	c.setMapOrders(spec.MapOrders, spec.MapOrdersQuick)
 	// watchdog: one generous absolute deadline per case (never a relative timing oracle)
 	go func() {
 		last, since := int64(-1), time.Now()
@@ -438,6 +444,7 @@ func Replay(spec Spec, file string) int {
 		return 2
 	}
 	c := NewCtx(spec.ID, rf.Tier, 0, 1, "", time.Hour)
+	c.setMapOrders(spec.MapOrders, spec.MapOrdersQuick)
 	c.SetReplay(rf.Group, rf.Index)
 	// the replayed case runs under the same absolute deadline as in a worker
 	go func() {
